@@ -6,22 +6,26 @@ import skeleton
 
 META = {
     'engine': 'lean-D',
-    'technique': 'Lean 4 inductive invariant (mq_inv) over an interleaving model of messageq.c at atomic-operation granularity: any number of senders n <= 128 (hence every n with n+32 < 128), '
-                 'every depth 1..32, unbounded executions, weak-CAS spurious failures; model tied to the unmodified C by replaying schedules through a baton/shim harness and comparing per-operation logs',
-    'level_text': 'For every reachable state of the model under every interleaving (free preemption; nested run-to-completion handlers are a subset): no slot is owned by two parties, the k-th successful receive returns '
-                  'the k-th granted ticket, once, after it was sent, with the payload its claimer wrote; at most depth buffers are outstanding; a claim fails only if permits-in-use >= depth at its fetch_sub; '
-                  'with no claim in progress num_free = depth - outstanding. Proved for the model with the C arithmetic (atomic_uchar read through signed char). The pre-fix arithmetic is proved to violate exclusive ownership (claim_wrap_counterexample).',
-    'level_note': 'Trusted: Lean kernel (standard axioms only); the hand model is validated every run against the real messageq.c: identical per-operation logs (thread, op, field, order, before, after, returns) on sampled schedules '
-                  '(random preemption, nested interrupt style, deliberately full queues with several claims in flight, and exhaustively all schedules of two single-message senders on depth 1-2 in the thorough tier), plus an independent '
+    'technique': 'Lean 4 inductive invariant (mq_inv) over an interleaving model of messageq.c at atomic-operation granularity: ANY number of senders (no bound), '
+                 'every depth 1..32, unbounded executions, spurious failures of both weak compare-exchanges; model tied to the unmodified C by the extracted atomic-operation skeleton (tie S, decide obligation) '
+                 'and by replaying schedules through a baton/shim harness and comparing per-operation logs (tie D)',
+    'level_text': 'For every reachable state of the model under every interleaving (free preemption; nested run-to-completion handlers are a subset), for any number of senders: no slot is owned by two parties, the k-th successful receive returns '
+                  'the k-th granted ticket, once, after it was sent, with the payload its claimer wrote; at most depth buffers are outstanding; a claim returns NULL only at a step at which it read the counter as 0, i.e. outstanding buffers + permits of claims in progress = depth; '
+                  'with no claim in progress num_free = depth - outstanding; the counter never wraps. Proved for the model with the C arithmetic of the current code (compare-exchange loop on the atomic_uchar counter, fix 6099fe4). '
+                  'Both earlier claim protocols are proved to violate exclusive ownership (claim_wrap_counterexample: unsigned fetch_sub, D2; claim_wrap_129_counterexample: signed fetch_sub with 129 nested failing claims, D12).',
+    'level_note': 'Trusted: Lean kernel (standard axioms only); the hand model is validated every run against the real messageq.c: its access skeleton equals the one extracted from clang\'s AST (kinds, objects, memory orders, branch context, field atomicity), '
+                  'and identical per-operation logs (thread, op, field, order, before, after, returns) on sampled schedules '
+                  '(random preemption, nested interrupt style, deliberately full queues with several claims in flight, long sequential runs, deep synchronous nesting of > 128 claim contexts, and exhaustively all schedules of two single-message senders on depth 1-2 plus a preemption sweep in the thorough tier), plus an independent '
                   'ownership monitor in the harness. Sequential consistency is assumed for the interleaving semantics (all accesses are seq_cst atomics or provably exclusive plain accesses; DRF-SC, see C07); '
-                  'hardware mapping of seq_cst is not modelled. Liveness (a sent message is eventually received) is only checked at quiescence by the harness, not proved.',
+                  'hardware mapping of seq_cst is not modelled. Liveness (a sent message is eventually received; a claim loop terminates) is only checked at quiescence by the harness, not proved.',
     'design_ref': '§6 C04',
 }
 REQUIRED = ['Librfn.C04.mq_inv_init', 'Librfn.C04.mq_inv_step', 'Librfn.C04.mq_inv_reachable', 'Librfn.C04.mq_inv_all',
             'Librfn.C04.exclusive_ownership', 'Librfn.C04.outstanding_slots_distinct', 'Librfn.C04.claim_hands_out_unowned',
             'Librfn.C04.fifo_claim_order', 'Librfn.C04.exactly_once', 'Librfn.C04.receive_succeeds_iff', 'Librfn.C04.payload_intact',
             'Librfn.C04.claim_bounded', 'Librfn.C04.claim_fails_only_if_full', 'Librfn.C04.quiescent_count',
-            'Librfn.C04.mq_no_adjacent_conflict', 'Librfn.C04.shifts_defined', 'Librfn.C04.claim_wrap_counterexample', 'Librfn.C04.d2_schedule_fixed',
+            'Librfn.C04.mq_no_adjacent_conflict', 'Librfn.C04.shifts_defined', 'Librfn.C04.counter_in_range', 'Librfn.C04.claim_wrap_counterexample', 'Librfn.C04.claim_wrap_129_counterexample',
+            'Librfn.C04.claim_no_wrap_128', 'Librfn.C04.d2_schedule_fixed',
             'Librfn.C04.skeleton_matches_messageq', 'Librfn.C04.mq_ord_all_seqcst', 'Librfn.C04.mq_fields_atomic']
 MAXSEND = 7
 
@@ -135,22 +139,23 @@ def interleavings(counts):
 
 
 def exhaustive_two_senders():
-    """all schedules of two senders x one claim/send each on depth 1-2:
-    (A) claimers alone (6 operations each: 5 + one CAS retry), 0..depth buffers already held;
+    """all schedules of two senders x one claim/send each on depth 1-2 (a claim/send is 6 operations: load and
+    compare-exchange on num_free, load and compare-exchange on sendp, payload write, fetch_or):
+    (A) claimers alone (7 operations each: 6 + one compare-exchange retry), 0..depth buffers already held;
     (B) one message already sent, so the receiver's receive/read/release (3 operations) interleaves with the two
-        claimers (5 operations each; operations left over after a CAS retry run at the end)"""
+        claimers (6 operations each; operations left over after a retry run at the end)"""
     out = []
     for depth in (1, 2):
         for held in range(0, depth + 1):
             progs = ['h'] * held + ['s1', 's1']
             fill = [f'{i}!' for i in range(held)]
-            for seq in interleavings((6, 6)):
+            for seq in interleavings((7, 7)):
                 out.append(scen(depth, 4, 0, 0, progs, fill + [str(held + t) for t in seq]))
-    for (depth, pre) in ((1, ['s1']), (2, ['s1', 'h']), (2, ['s1'])):
+    for (depth, pre) in ((1, ['s1']), (2, ['s1', 'h'])):
         progs = pre + ['s1', 's1']
         fill = [f'{i}!' for i in range(len(pre))]
         base = len(pre)
-        for seq in interleavings((5, 5, 3)):
+        for seq in interleavings((6, 6, 3)):
             out.append(scen(depth, 4, 1, 0, progs, fill + [str(base + t) for t in seq]))
     return out
 
@@ -379,12 +384,12 @@ def check_batch(ctx, exe, scs, label, timeout, stats):
             w = l.split()
             if len(w) >= 6 and w[0][0] == 'T' and w[1] != 'ret' and w[3] != 'plain':
                 stats['ops'][w[1]] = stats['ops'].get(w[1], 0) + 1
-                if w[1] == 'fetch_sub' and (int(w[4]) == 0 or int(w[4]) >= 128):
-                    stats['failing_claims'] += 1
-                    if int(w[4]) >= 128:
-                        stats['claims_inside_a_failing_claims_window'] += 1
+                if w[1] == 'cas_fail' and w[2] == 'num_free':
+                    stats['failed_cas_on_num_free'] += 1
             elif len(w) >= 4 and w[1] == 'ret' and w[2] == 'receive' and w[3] != 'NULL':
                 stats['messages_received'] += 1
+            elif len(w) >= 4 and w[1] == 'ret' and w[2] == 'claim' and w[3] == 'NULL':
+                stats['failing_claims'] += 1
         bad = monitor_complains(io)
         if not bad and io == mo:
             if first_diff is None:
@@ -434,7 +439,7 @@ def run(ctx):
     if not ctx.build_model():
         return
     quick = ctx.tier == 'quick'
-    stats = {'ops': {}, 'failing_claims': 0, 'claims_inside_a_failing_claims_window': 0, 'messages_received': 0}
+    stats = {'ops': {}, 'failing_claims': 0, 'failed_cas_on_num_free': 0, 'messages_received': 0}
     groups = [('corpus', corpus()),
               ('full-queue-claims-in-flight', [gen_full(rng) for _ in range(150 if quick else 6000)]),
               ('free-preemption', [gen_free(rng) for _ in range(120 if quick else 5000)]),
@@ -445,7 +450,7 @@ def run(ctx):
         groups.append(('preemption-sweep-level-1', l1))
         ex = exhaustive_two_senders()
         groups.append(('exhaustive-two-senders', ex))
-        ctx.cov['exhaustive'] = f'{len(ex)} schedules: every interleaving of two single-message senders (6 operations each) on depth 1-2 with 0..depth buffers pre-held, and every interleaving of two senders (5 operations each) with the receiver\'s receive/read/release of an already sent message on depth 1-2'
+        ctx.cov['exhaustive'] = f'{len(ex)} schedules: every interleaving of two single-message senders (7 operations each) on depth 1-2 with 0..depth buffers pre-held, and every interleaving of two senders (6 operations each) with the receiver\'s receive/read/release of an already sent message on depth 1 and 2'
     total_agreed, per_group = 0, {}
     for (label, scs) in groups:
         nviol = len(ctx.violations)
@@ -498,7 +503,7 @@ def run(ctx):
     ctx.cov['groups'] = per_group
     ctx.cov['atomic_op_histogram'] = stats['ops']
     ctx.cov['failing_claims'] = stats['failing_claims']
-    ctx.cov['claims_inside_a_failing_claims_window'] = stats['claims_inside_a_failing_claims_window']
+    ctx.cov['failed_cas_on_num_free'] = stats['failed_cas_on_num_free']
     ctx.cov['messages_received'] = stats['messages_received']
     g = groups[1][1]
     ctx.sample(g[0]); ctx.sample(groups[2][1][0]); ctx.sample(groups[3][1][0])
